@@ -156,4 +156,78 @@ example : parsePath "<first.last+tag@mail.example.org> SIZE=5".b = some ("first.
 
 example : parsePath "<a b@c>".b = none := by decide +kernel
 
+/-! ### quoted local parts -/
+
+/-- the quoted-string body that stands for the octets `s`: backslash and double quote escaped by a backslash
+    (any octet may be written as a quoted-pair; this is the minimal form) -/
+def quote (s : Bytes) : Bytes := s.flatMap (fun b => if b == 92 || b == 34 then [92, b] else [b])
+
+theorem quote_cons_esc (b : Byte) (s : Bytes) (h : b = 92 ∨ b = 34) : quote (b :: s) = 92 :: b :: quote s := by
+  rcases h with rfl | rfl <;> rfl
+
+theorem quote_cons_plain (b : Byte) (s : Bytes) (h1 : b ≠ 92) (h2 : b ≠ 34) : quote (b :: s) = b :: quote s := by
+  have : (b == 92 || b == 34) = false := by simp [h1, h2]
+  simp only [quote, List.flatMap_cons, this, Bool.false_eq_true, if_false, List.singleton_append]
+
+theorem parseQuoted_quote (s rest acc : Bytes) :
+    parseQuoted (quote s ++ 34 :: rest) acc = some (acc.reverse ++ s, rest) := by
+  induction s generalizing acc with
+  | nil =>
+    show parseQuoted (34 :: rest) acc = _
+    rw [parseQuoted.eq_def]
+    simp
+  | cons b s ih =>
+    by_cases h92 : b = 92
+    · subst h92
+      rw [quote_cons_esc _ _ (Or.inl rfl)]
+      show parseQuoted (92 :: 92 :: (quote s ++ 34 :: rest)) acc = _
+      rw [parseQuoted]
+      simp only [beq_self_eq_true, if_true]
+      rw [ih]; simp
+    · by_cases h34 : b = 34
+      · subst h34
+        rw [quote_cons_esc _ _ (Or.inr rfl)]
+        show parseQuoted (92 :: 34 :: (quote s ++ 34 :: rest)) acc = _
+        rw [parseQuoted]
+        simp only [beq_self_eq_true, if_true]
+        rw [ih]; simp
+      · rw [quote_cons_plain b s h92 h34]
+        show parseQuoted (b :: (quote s ++ 34 :: rest)) acc = _
+        have e1 : (b == 92) = false := by simpa using h92
+        have e2 : (b == 34) = false := by simpa using h34
+        rw [parseQuoted.eq_def]
+        simp only [e1, e2, Bool.false_eq_true, if_false]
+        rw [ih]; simp
+
+/-- **C11_quoted_exact.**  `<"…"@domain>` with any local part written as a quoted-string (backslash and quote escaped): the
+    parser returns exactly the unescaped local part, `@`, the domain — and leaves exactly what follows `>`. -/
+theorem C11_quoted_exact (lp dom rest : Bytes) (hlp : lp ≠ []) (hdom : dom ≠ []) (hdomok : dom.all domOk = true)
+    (hlast : dom.getLast? ≠ some 64) :
+    parsePath ([60, 34] ++ quote lp ++ [34, 64] ++ dom ++ [62] ++ rest) = some (lp ++ [64] ++ dom, rest) := by
+  have hshape : [60, 34] ++ quote lp ++ [34, 64] ++ dom ++ [62] ++ rest = 60 :: 34 :: (quote lp ++ 34 :: (64 :: (dom ++ 62 :: rest))) := by simp
+  rw [hshape]
+  obtain ⟨t1, t2⟩ := takeWhile_dom dom rest hdomok
+  have hlocal : parseLocalPart (34 :: (quote lp ++ 34 :: (64 :: (dom ++ 62 :: rest)))) = some (lp, 64 :: (dom ++ 62 :: rest)) := by
+    unfold parseLocalPart
+    simp only [parseQuoted_quote]
+    simp
+  have hsuf : hasSuffix (lp ++ [64] ++ dom) [64] = false := by
+    unfold hasSuffix
+    obtain ⟨d, dl, hd⟩ : ∃ d dl, dom = dl ++ [d] := by
+      have := List.dropLast_concat_getLast hdom
+      exact ⟨dom.getLast hdom, dom.dropLast, this.symm⟩
+    have hd64 : d ≠ 64 := by
+      intro e; apply hlast; rw [hd, e]; simp
+    rw [hd]
+    simp [List.isPrefixOf, Ne.symm hd64]
+  have hie : lp.isEmpty = false := by cases lp with | nil => exact absurd rfl hlp | cons _ _ => rfl
+  have hmb : parseMailbox (34 :: (quote lp ++ 34 :: (64 :: (dom ++ 62 :: rest)))) = some (lp ++ [64] ++ dom, 62 :: rest) := by
+    unfold parseMailbox
+    simp only [hlocal, hie, Bool.false_eq_true, if_false, t1, t2, hsuf]
+  have hroute := route_none (34 :: (quote lp ++ 34 :: (64 :: (dom ++ 62 :: rest)))) (by intro t e; cases e)
+  simp only [parsePath, hroute, hmb]
+  simp
+
+example : parsePath "<\"a\\\"b\\\\\"@example.org> SIZE=1".b = some ("a\"b\\@example.org".b, " SIZE=1".b) := by decide +kernel
+
 end SmtpV.Props.C11
